@@ -41,6 +41,9 @@ def hooks(exclude=()):
     for n in PREDS:
         if n not in exclude:
             h["DateRoll::" + n] = h["DateRoll>::" + n] = (lambda n: lambda ev, vals, e: P(n, *vals))(n)
+    if "is_non_bus_day" not in exclude and "is_bus_day" not in exclude:
+        # is_non_bus_day = !is_bus_day (checked by C06 R06.0): one vocabulary for both spellings
+        h["DateRoll::is_non_bus_day"] = h["DateRoll>::is_non_bus_day"] = lambda ev, vals, e: NOT(P("is_bus_day", *vals))
     for n in ROLLS:
         if n not in exclude:
             h["DateRoll::" + n] = h["DateRoll>::" + n] = (lambda n: lambda ev, vals, e: R(n, *vals))(n)
